@@ -145,27 +145,34 @@ func (sto *overlayStorage) RemoveBlobs(ctx context.Context, blobs []blob.Ref) er
 	return sto.deleted.CommitBatch(m)
 }
 
-func (sto *overlayStorage) isDeleted(br blob.Ref) bool {
+// isDeleted reports whether br was deleted from the overlay. It fails if
+// the deleted index can't be read: guessing "not deleted" would expose a
+// removed blob of the lower layer again.
+func (sto *overlayStorage) isDeleted(br blob.Ref) (bool, error) {
 	if sto.deleted == nil {
-		return false
+		return false, nil
 	}
 
 	_, err := sto.deleted.Get(br.String())
 	if err == nil {
-		return true
+		return true, nil
 	}
 
 	if !errors.Is(err, sorted.ErrNotFound) {
-		log.Printf("overlayStorage error accessing deleted: %v", err)
+		return false, fmt.Errorf("overlay: error accessing deleted index: %w", err)
 	}
 
-	return false
+	return false, nil
 }
 
 // Fetch the blob by trying first the upper and then lower.
 // The lower storage is checked only if the blob was not deleleted in sto itself.
 func (sto *overlayStorage) Fetch(ctx context.Context, br blob.Ref) (file io.ReadCloser, size uint32, err error) {
-	if sto.isDeleted(br) {
+	deleted, err := sto.isDeleted(br)
+	if err != nil {
+		return nil, 0, err
+	}
+	if deleted {
 		return nil, 0, os.ErrNotExist
 	}
 
@@ -181,7 +188,11 @@ func (sto *overlayStorage) Fetch(ctx context.Context, br blob.Ref) (file io.Read
 func (sto *overlayStorage) StatBlobs(ctx context.Context, blobs []blob.Ref, f func(blob.SizedRef) error) error {
 	exists := make([]blob.Ref, 0, len(blobs))
 	for _, br := range blobs {
-		if !sto.isDeleted(br) {
+		deleted, err := sto.isDeleted(br)
+		if err != nil {
+			return err
+		}
+		if !deleted {
 			exists = append(exists, br)
 		}
 	}
@@ -226,9 +237,18 @@ func (sto *overlayStorage) EnumerateBlobs(ctx context.Context, dest chan<- blob.
 
 		// Yield all blobs that weren't deleted from ch to destch.
 		seen := 0
+		var delErr error
 		for sbr := range ch {
 			seen++
-			if !sto.isDeleted(sbr.Ref) {
+			if delErr != nil {
+				continue // draining
+			}
+			deleted, err := sto.isDeleted(sbr.Ref)
+			if err != nil {
+				delErr = err
+				continue
+			}
+			if !deleted {
 				log.Println(sent, sbr.Ref)
 				dest <- sbr
 				sent++
@@ -238,6 +258,9 @@ func (sto *overlayStorage) EnumerateBlobs(ctx context.Context, dest chan<- blob.
 
 		if err := <-errch; err != nil {
 			return err
+		}
+		if delErr != nil {
+			return delErr
 		}
 
 		// if no blob was received, enumeration is finished
